@@ -292,15 +292,24 @@ def parse_rvalue(rv):
             for x in split_top(m.group(2)):
                 fn_, op = x.split(': ', 1)
                 fields.append((fn_.strip(), parse_operand(op)))
-            variant = None
-            mm = re.fullmatch(r'(.+)::(\w+)', strip_generics(name))
-            return ('struct', name, fields)
+            return ('struct', name, fields, _last_seg(name))
     # enum variant with payload  Path::Variant(args) ; unit variant  Path::Variant
     if rv.endswith(')'):
         k = find_call_paren(rv)
         head, args = rv[:k], rv[k + 1:-1]
-        return ('variant', head, [parse_operand(x) for x in split_top(args)])
-    return ('variant', rv, [])
+        return ('variant', head, [parse_operand(x) for x in split_top(args)]) + _variant_names(head)
+    return ('variant', rv, []) + _variant_names(rv)
+
+
+def _variant_names(head):
+    parts = strip_generics(head).split('::')
+    return (parts[-2] if len(parts) > 1 else parts[-1], parts[-1])
+
+
+def _last_seg(ty):
+    ty = strip_generics(ty.strip())
+    ty = re.sub(r"^&(?:'\w+ )?(?:mut )?", '', ty)
+    return ty.split('::')[-1]
 
 
 def strip_generics(name):
